@@ -390,6 +390,7 @@ func c03EmitOp(c *Ctx, gen, op string, ps []*profile.Profile, nontrivial bool, t
 	}
 	in := L(S(op), L(ins...), L(krs...))
 	before := Render(in)
+	deepBefore := c03DeepSnapshot(ps)
 	var q *profile.Profile
 	var res, msg string
 	if op == "compact" {
@@ -397,6 +398,7 @@ func c03EmitOp(c *Ctx, gen, op string, ps []*profile.Profile, nontrivial bool, t
 	} else {
 		q, res, msg = c03Merge(ps)
 	}
+	deepModified := c03DeepSnapshot(ps) != deepBefore // unexported fields included
 	tags = append(tags, "op:"+op, "res:"+res, fmt.Sprintf("inputs:%d", len(ps)))
 	var obs Term
 	switch res {
@@ -407,7 +409,7 @@ func c03EmitOp(c *Ctx, gen, op string, ps []*profile.Profile, nontrivial bool, t
 			ins2 = append(ins2, DumpProfile(p))
 			krs2 = append(krs2, c03KRS(p))
 		}
-		modified := Render(L(S(op), L(ins2...), L(krs2...))) != before
+		modified := Render(L(S(op), L(ins2...), L(krs2...))) != before || deepModified
 		d := DumpProfile(q)
 		q2, res2 := c03Compact(q)
 		same := res2 == "ok" && q2 != nil && q2 != q && Render(DumpProfile(q2)) == Render(d) && Render(DumpProfile(q)) == Render(d) &&
@@ -1315,6 +1317,10 @@ func runC03(c *Ctx) {
 	c03DupSystematic(c)
 	for i := c.Budget(60, 6000); i > 0; i-- {
 		c03DupRandom(c)
+	}
+	c03HistSystematic(c)
+	for i := c.Budget(50, 5000); i > 0; i-- {
+		c03HistSession(c)
 	}
 	for i := c.Budget(400, 40000); i > 0; i-- {
 		c03RandomList(c, "pool", false)
